@@ -3,7 +3,7 @@ CONSTANTS
   Vars = {"x"}
   Flags = {"none"}
   OpenKinds = {"rule", "media", "lmixin", "mixin", "function", "content", "contentm"}
-  BoundKinds = {"mixin", "function", "content"}
+  BoundKinds = {"mixin", "function", "content", "lmixin", "lmixind", "lfunctiond"}
   MaxLen = 8
   MaxDepth = 3
   CheckDev = {}
